@@ -222,7 +222,7 @@ theorem stepXApi_fresh {st st' : St} {c : XApi} (h : stepXApi st c = some st') :
       subst e
       have hg := (udw_good (W := NoW) _ _ _ _ _ r (Ext.refl NoW _) hv).2
       intro g hgm a ha
-      simp only [pushPVM_gos, St.pushVal, St.withMem, List.drop_left, List.mem_flatten, List.mem_map] at hgm
+      simp only [pushPVM_gos, List.drop_left, List.mem_flatten, List.mem_map] at hgm
       obtain ⟨l, ⟨e, he, hl⟩, hgl⟩ := hgm
       subst hl
       obtain ⟨⟨pa, off, len, cap, e1, h1⟩, mk, e2, h2⟩ := hg e he
